@@ -93,9 +93,10 @@ def main():
                      name="B-holes k=1 x option product")
 
     # k=0 over all seeds and test literals: the full concrete option grid (verbose x py_version 3.8..3.13 x mode)
-    alltexts = GATED + py + xs + [t for t in lits if len(t) < 200]
+    CHAINS = ["x" + " + x" * 1200 + "\n", "a" + ".b" * 1200 + "\n", "f" + "()" * 600 + "\n", "a" + "[0]" * 600 + "\n", "[" + "1, " * 800 + "2]\n", "x = " + "y = " * 300 + "1\n"]
+    alltexts = CHAINS + GATED + py + xs + [t for t in lits if len(t) < 200]
     if chk.quick:
-        alltexts = GATED + seeds.sample(chk.rng, py, 60) + seeds.sample(chk.rng, xs, 40) + seeds.sample(chk.rng, lits, 60)
+        alltexts = CHAINS + GATED + seeds.sample(chk.rng, py, 60) + seeds.sample(chk.rng, xs, 40) + seeds.sample(chk.rng, lits, 60)
 
     def tf(ex):
         i = harness.choose_index(ex, "seed", len(alltexts))
